@@ -6,7 +6,7 @@
    position of the action during which they arrive), the final state of the
    future and the positions of the library's cancel()/dispose calls.
    Theorems hold for ALL continuations [rest]/[junk] of the action sequence. *)
-From RxVerif Require Import Base.Prelude Base.CaseLib Ops.Machine Ops.MachineFacts Ops.Bridges Ops.BridgesFacts.
+From RxVerif Require Import Base.Prelude Base.CaseLib Ops.Machine Ops.MachineFacts Ops.Bridges Ops.BridgesFacts Ops.BridgesRun Ops.BridgesFacts2.
 
 (* ---- from_future ---------------------------------------------------------------- *)
 Theorem C41_from_future_result : forall v rest,
@@ -70,6 +70,40 @@ Example C41_examples :
   /\ run_outcome (events [4] (TErr 11)) = Raises 11 /\ run_outcome (events [4] TNever) = Blocks.
 Proof. vm_compute. auto. Qed.
 
+(* a sequence without a terminal notification: the caller stays blocked *)
+Theorem C41_run_blocks : forall xs, run_outcome (events xs TNever) = Blocks.
+Proof. exact run_blocks. Qed.
+Print Assumptions C41_run_blocks.
+
+(* run() has a model of its own, written from run.py (Ops/BridgesRun.v: result, has_result,
+   exception tested with `is not None`, done, and the stopped flag of the AutoDetachObserver that
+   subscribe() puts around the three callbacks).  It agrees with the to_future description on ALL
+   notification sequences (no grammar assumed) *)
+Theorem C41_run_model_is_run_outcome : forall ins, run_model ins = run_outcome ins.
+Proof. exact run_model_is_run_outcome. Qed.
+Print Assumptions C41_run_model_is_run_outcome.
+
+Theorem C41_run_model_spec : forall xs t junk, t <> TNever ->
+  run_model (events xs t ++ junk)
+  = match t with
+    | TDone => match last_opt xs None with Some v => Returns v | None => Raises NO_ELEMENTS end
+    | TErr e => Raises e
+    | TNever => Blocks
+    end.
+Proof. exact run_model_spec. Qed.
+Print Assumptions C41_run_model_spec.
+
+Theorem C41_run_model_blocks : forall xs, run_model (events xs TNever) = Blocks.
+Proof. exact run_model_blocks. Qed.
+Print Assumptions C41_run_model_blocks.
+
+(* a falsy exception (id 0) and a falsy last element (0) are an exception / a result like any other;
+   elements after the terminal notification are dropped *)
+Example C41_run_model_examples :
+  run_model [Next 4; Err 0; Next 5] = Raises 0 /\ run_model [Next 4; Next 0; Done; Next 7; Err 3] = Returns 0
+  /\ run_model [Done] = Raises NO_ELEMENTS /\ run_model [Next 1; Next 2] = Blocks.
+Proof. vm_compute. auto. Qed.
+
 (* ---- to_async / start ----------------------------------------------------------------- *)
 Theorem C41_to_async_result : forall r,
   to_async r [ARun; ASubscribe] = result_notes 1 r /\ to_async r [ASubscribe; ARun] = result_notes 1 r.
@@ -82,6 +116,43 @@ Proof. exact to_async_unsubscribed_before_run. Qed.
 Print Assumptions C41_to_async_result.
 Print Assumptions C41_to_async_single_result.
 Print Assumptions C41_to_async_unsubscribed_before_run.
+
+(* liveness, general orders: the result IS delivered when the call has run before the first
+   subscription (during subscribe()), or runs while a subscription is there and not yet disposed (at
+   that moment); [a1], [a2], [rest] arbitrary within the stated side conditions *)
+Theorem C41_to_async_delivers_late_subscriber : forall r a1 rest, In ARun a1 -> ~ In ASubscribe a1 ->
+  to_async r (a1 ++ ASubscribe :: rest) = result_notes (length a1) r.
+Proof. exact to_async_delivers_late_subscriber. Qed.
+Print Assumptions C41_to_async_delivers_late_subscriber.
+
+Theorem C41_to_async_delivers_live_subscriber : forall r a1 a2 rest,
+  ~ In ARun a1 -> ~ In ASubscribe a1 -> ~ In ARun a2 -> ~ In AUnsubscribe a2 ->
+  to_async r (a1 ++ ASubscribe :: a2 ++ ARun :: rest) = result_notes (length a1 + S (length a2)) r.
+Proof. exact to_async_delivers_live_subscriber. Qed.
+Print Assumptions C41_to_async_delivers_live_subscriber.
+
+(* ... and in the remaining cases nothing is delivered: disposed before the call runs, the call
+   never runs, nobody subscribes *)
+Theorem C41_to_async_unsubscribed_before_run_general : forall r a1 a2 rest,
+  ~ In ARun a1 -> ~ In ASubscribe a1 -> ~ In ARun a2 -> ~ In AUnsubscribe a2 ->
+  to_async r (a1 ++ ASubscribe :: a2 ++ AUnsubscribe :: rest) = [].
+Proof. exact to_async_unsubscribed_before_run_general. Qed.
+Print Assumptions C41_to_async_unsubscribed_before_run_general.
+
+Theorem C41_to_async_never_run : forall r acts, ~ In ARun acts -> to_async r acts = [].
+Proof. exact to_async_never_run. Qed.
+Print Assumptions C41_to_async_never_run.
+
+Theorem C41_to_async_never_subscribed : forall r acts, ~ In ASubscribe acts -> to_async r acts = [].
+Proof. exact to_async_never_subscribed. Qed.
+Print Assumptions C41_to_async_never_subscribed.
+
+Example C41_to_async_delivery_examples :
+  to_async (Ok 7) ([AUnsubscribe; ARun; ARun] ++ ASubscribe :: [ASubscribe; AUnsubscribe])
+    = [(3%nat, Next 7); (3%nat, Done)]
+  /\ to_async (Raise 9) ([AUnsubscribe] ++ ASubscribe :: [ASubscribe] ++ ARun :: [ARun; AUnsubscribe])
+    = [(3%nat, Err 9)].
+Proof. vm_compute. auto. Qed.
 
 (* ---- from_callback ------------------------------------------------------------------- *)
 Theorem C41_from_callback_no_mapper : forall k args rest,
@@ -101,4 +172,34 @@ Example C41_from_callback_examples :
   from_callback (Some MSum) [(0%nat, [5; 6]); (1%nat, [7])] = [(0%nat, Next (VOne 11)); (0%nat, Done)]
   /\ from_callback None [(2%nat, [])] = [(2%nat, Next VNone); (2%nat, Done)]
   /\ from_callback None [(0%nat, [5; 6])] = [(0%nat, Next (VList [5; 6])); (0%nat, Done)].
+Proof. vm_compute. auto. Qed.
+
+(* the handler is never invoked: nothing *)
+Theorem C41_from_callback_never_invoked : forall m, from_callback m [] = [].
+Proof. exact from_callback_never_invoked. Qed.
+Print Assumptions C41_from_callback_never_invoked.
+
+(* the same three statements with the mapper an ARBITRARY function on the argument list
+   ([from_callback_fn], Ops/BridgesRun.v); the model evaluated by the correspondence is its instance
+   at the four concrete mappers *)
+Theorem C41_from_callback_fn_no_mapper : forall k args rest,
+  from_callback_fn None ((k, args) :: rest) = [(k, Next (arguments_value args)); (k, Done)].
+Proof. exact from_callback_fn_no_mapper. Qed.
+Theorem C41_from_callback_fn_mapper : forall (mp : list Z -> res Z) k args rest v, mp args = Ok v ->
+  from_callback_fn (Some mp) ((k, args) :: rest) = [(k, Next (VOne v)); (k, Done)].
+Proof. exact from_callback_fn_mapper. Qed.
+Theorem C41_from_callback_fn_mapper_raises : forall (mp : list Z -> res Z) k args rest e, mp args = Raise e ->
+  from_callback_fn (Some mp) ((k, args) :: rest) = [(k, Err e)].
+Proof. exact from_callback_fn_mapper_raises. Qed.
+Theorem C41_from_callback_is_instance : forall m invs,
+  from_callback m invs = from_callback_fn (option_map apply_mapper m) invs.
+Proof. exact from_callback_is_instance. Qed.
+Print Assumptions C41_from_callback_fn_no_mapper.
+Print Assumptions C41_from_callback_fn_mapper.
+Print Assumptions C41_from_callback_fn_mapper_raises.
+Print Assumptions C41_from_callback_is_instance.
+
+Example C41_from_callback_fn_example :
+  from_callback_fn (Some (fun args => Ok (fold_right Z.mul 1 args))) [(0%nat, [5; 6]); (1%nat, [7])]
+  = [(0%nat, Next (VOne 30)); (0%nat, Done)].
 Proof. vm_compute. auto. Qed.
